@@ -100,6 +100,11 @@ def gen_part(rng, ndim, ncpu):
         rng.shuffle(cols)
     if len(cols) < 2:
         cols.append(("mass", "d"))
+    if rng.random() < 0.3:
+        # any on-disk type for any variable: dimensional quantities stored as integers or bytes
+        cols = [(n, rng.choice(["i", "b", "d"]) if rng.random() < 0.4 else t) for n, t in cols]
+    if rng.random() < 0.15:
+        cols = [(n, rng.choice(["d", "i"]) if t == "b" or (t == "i" and rng.random() < 0.5) else t) for n, t in cols]
     counts = [rng.choice([0, 0, 1, 2, 3, 5, 9, 30]) for _ in range(ncpu)]
     return {"columns": [list(c) for c in cols], "counts": counts, "descriptor": True,
             "header_lengths": [rng.choice([4, 8, 16, 32]), rng.choice([4, 8]), 8, 8, rng.choice([4, 8])]}
